@@ -1,7 +1,7 @@
 (* C12 — Encoder uses only opcodes of the requested protocol and emits one framed pickle. *)
 From Coq Require Import List ZArith NArith Bool.
 From Coq.Strings Require Import Byte.
-From OgRek Require Import Base Encoder EncoderFacts.
+From OgRek Require Import Base Encoder Insn EncProg EncoderFacts ProgFacts.
 Import ListNotations.
 
 (* a protocol outside 0..5 is rejected with an error before anything is written, whatever the
@@ -11,15 +11,34 @@ Theorem C12_bad_protocol :
 Proof. exact encode_bad_protocol. Qed.
 Print Assumptions C12_bad_protocol.
 
-(* framing: a successful output is  [PROTO p iff p >= 2]  body  STOP *)
-Theorem C12_framing_partial :
+(* Whenever Encode succeeds, for every value and configuration, what it wrote is - byte for byte -
+   the assembly of an instruction list  program c v  (Insn.asm gives each instruction's bytes) that
+     - is  [PROTO p exactly when p >= 2] ++ body ++ [STOP]  with no PROTO or STOP inside body,
+     - uses only opcodes introduced in a protocol <= p (Insn.iproto: the pickletools table),
+     - respects the stack discipline of the pickle machine over {mark, object} (Insn.sd_step: the
+       pickletools stack effects), reaching STOP with exactly one object.
+   Insn.asm / iproto / sd_step are compared with CPython's pickletools.opcodes on every run. *)
+Theorem C12_conformance :
+  forall c v ws,
+    run_w (encode c v) None = (ws, EOk) ->
+    concat ws = asm_all (program c v) /\
+    program c v = (if (2 <=? e_proto c)%Z then [IProto (Z.to_N (e_proto c))] else []) ++ body c v ++ [IStop] /\
+    Forall (fun i => is_frame i = false) (body c v) /\
+    Forall (fun i => (iproto i <= e_proto c)%Z) (program c v) /\
+    sd_run (program c v) [] = true.
+Proof.
+  intros c v ws H. split; [exact (encode_is_program c v ws H)|]. split; [reflexivity|].
+  split; [apply body_noframe|]. split; [|exact (program_well_formed c v ws H)].
+  apply program_within. unfold encode in H.
+  destruct ((0 <=? e_proto c)%Z && (e_proto c <=? 5)%Z) eqn:E; [|discriminate].
+  apply andb_true_iff in E. destruct E as [E _]. apply Z.leb_le. exact E.
+Qed.
+Print Assumptions C12_conformance.
+
+(* framing at the byte level (kept from the earlier development; a corollary of the above) *)
+Theorem C12_framing :
   forall c v ws,
     run_w (encode c v) None = (ws, EOk) ->
     exists body, concat ws = (if (2 <=? e_proto c)%Z then [x80; Z2b (e_proto c)] else []) ++ body ++ [x2e].
 Proof. exact encode_framing. Qed.
-Print Assumptions C12_framing_partial.
-
-(* NOT YET PROVED (hence _partial): that `body` disassembles into opcodes introduced in protocol
-   <= p with a balanced stack and no further STOP.  That part of the property is decided on
-   every run by scanning the implementation's and the model's output with CPython's pickletools
-   (opcode table, dis) and by loading protocol <= 2 output under Python 2.7. *)
+Print Assumptions C12_framing.
